@@ -208,14 +208,15 @@ def replay_chunk(job):
             long_ones = [d for d in strings if len(d) == longest]
             strings = [d for d in strings if len(d) < longest] + rnd.sample(long_ones, min(sample, len(long_ones)))
         primed = case["hist"] == "primed"
-        for sink in case["sinks"]:
+        for sink in case["sinks"] + case["shortsinks"]:
             src, extra = concretize(case, sink)
+            data_strings = strings if sink in case["sinks"] else [d for d in strings if len(d) <= 1]
             envs = {}
             for ae in ((True, False) if case["sameoff"] else (True,)):
                 env = _env(ae, fresh=primed)
                 env.loader.templates.update(extra)
                 envs[ae] = (env, env.from_string(src))
-            for d in strings:
+            for d in data_strings:
                 data = render_data(d)
                 s = data["d"]
                 for how in ("sync", "async"):
@@ -363,10 +364,10 @@ def run(tier: str) -> int:
     ndata = sum(len(v) for v in _DATA.values())
     ck.cov["rule"] = (f"Taint.tla family: {len(cases)} (source, chain, history, data class) cases = 11 sources (plain data, captured, captured "
                       "with literal text, array, hash, literal, number, nil, Markup, __html__ object, block.super) x chains of <=1 filter over "
-                      "70 instances of 49 built-in filters, <=2 over " + ("35 core instances" if tier == "quick" else "all 70, <=3 over 14") +
+                      "75 instances of 48 built-in filters, <=2 over " + ("35 core instances" if tier == "quick" else "all 75, <=3 over 14") +
                       f"; each replayed through its sinks (23 for chains of <=1 filter: output, echo, liquid, assign, capture, cycle, for, if, "
                       f"unless, case, ifchanged, render, include, with/for variants, translate tag and filter, the three ternary positions, "
-                      f"with, macro, block.super) with every data string of its class ({ndata} strings of <={max(len(d) for v in _DATA.values() for d in v)} "
+                      f"with, macro, block.super" + ("; all but output/capture/cycle/translate only with strings of <=1 atom" if tier == "quick" else "") + ") with every data string of its class ({ndata} strings of <={max(len(d) for v in _DATA.values() for d in v)} "
                       "atoms over x < > & \" ' &lt; &amp %3C" + ("" if tier == "quick" else "; strings of 3 atoms sampled, 40 per case") +
                       "), sync and async; date-memo history cases first format a date with the same text marked safe")
     # 2. replay
@@ -419,7 +420,7 @@ def run(tier: str) -> int:
                              "observed": seen, "case": {k: case[k] for k in ("src", "chain", "hist", "cls")}, "sink": sink},
                 sig=f"{kind}:{case['src']}:{chain_text(case['chain']).strip(' |')}:{sink}")
     for c in (cases[0], cases[len(cases) // 2], cases[-1]):
-        s, _ = concretize(c, sorted(c["sinks"])[0])
+        s, _ = concretize(c, "out")
         ck.sample({"source": s, "class": c["cls"], "clean": c["clean"], "unchanged": c["unchanged"], "sameoff": c["sameoff"]})
     ck.assumptions += [
         "an escape sequence is &(#[0-9]+|#x[0-9a-fA-F]+|[A-Za-z][A-Za-z0-9]*); (DESIGN §6)",
